@@ -352,7 +352,9 @@ class BehavioralRTLIRToVVisitorL1( bir.BehavioralRTLIRNodeVisitor ):
           return one_bit_template.format( **locals() )
 
     elif isinstance( node.value, bir.Index ):
-      _one_bit = True
+      # An index is a one-bit value only if it selects a bit; it can also
+      # select a multi-bit element of an array (s.in_[2], s.msg.f[0]).
+      _one_bit = ( current_nbits == 1 )
     elif not isinstance( node.value, (bir.Attribute, bir.Base, bir.TmpVar, bir.LoopVar) ):
       # The operand is a compound expression (e.g. sext( s.a + s.b, 8 )):
       # a bit select cannot be applied to it, and appending "[msb]" to its
